@@ -146,8 +146,12 @@ class FiltersSet:
         :return: the string between quotes
         """
         if not value.startswith(('"', "'")):
-            return '"%s"' % value
+            return '"%s"' % self.__escape(value)
         return value
+
+    def __escape(self, value: str) -> str:
+        """Escape the characters that are special inside a quoted string."""
+        return value.replace("\\", "\\\\").replace('"', '\\"')
 
     def __build_condition(
         self, condition: List[str], parent: commands.Command, tag: Optional[str] = None
@@ -226,7 +230,7 @@ class FiltersSet:
             elif cname == "exists":
                 cmd = commands.get_command_instance("exists", ifcontrol)
                 cmd.check_next_arg(
-                    "stringlist", "[%s]" % (",".join('"%s"' % val for val in c[1:]))
+                    "stringlist", "[%s]" % (",".join('"%s"' % self.__escape(val) for val in c[1:]))
                 )
             elif cname == "envelope":
                 cmd = commands.get_command_instance("envelope", ifcontrol, False)
@@ -240,11 +244,15 @@ class FiltersSet:
                 cmd.check_next_arg("tag", comp_tag, check_extension=False)
                 cmd.check_next_arg(
                     "stringlist",
-                    "[{}]".format(",".join('"{}"'.format(val) for val in c[2])),
+                    "[{}]".format(
+                        ",".join('"{}"'.format(self.__escape(val)) for val in c[2])
+                    ),
                 )
                 cmd.check_next_arg(
                     "stringlist",
-                    "[{}]".format(",".join('"{}"'.format(val) for val in c[3])),
+                    "[{}]".format(
+                        ",".join('"{}"'.format(self.__escape(val)) for val in c[3])
+                    ),
                 )
             elif cname == "address":
                 cmd = commands.get_command_instance("address", ifcontrol, False)
@@ -260,7 +268,7 @@ class FiltersSet:
                         finalarg = self.__quote_if_necessary(arg)
                     else:
                         finalarg = "[{}]".format(
-                            ",".join('"{}"'.format(val) for val in arg)
+                            ",".join('"{}"'.format(self.__escape(val)) for val in arg)
                         )
                     cmd.check_next_arg("stringlist", finalarg)
 
@@ -277,7 +285,8 @@ class FiltersSet:
                 self.__require_tag_extension(cmd, comp_tag)
                 cmd.check_next_arg("tag", comp_tag, check_extension=False)
                 cmd.check_next_arg(
-                    "stringlist", "[%s]" % (",".join('"%s"' % val for val in c[3:]))
+                    "stringlist",
+                    "[%s]" % (",".join('"%s"' % self.__escape(val) for val in c[3:])),
                 )
             elif cname == "currentdate":
                 cmd = commands.get_command_instance("currentdate", ifcontrol, False)
@@ -302,7 +311,12 @@ class FiltersSet:
                 next_arg_pos += 1
                 cmd.check_next_arg(
                     "stringlist",
-                    "[%s]" % (",".join('"%s"' % val for val in c[next_arg_pos:])),
+                    "[%s]"
+                    % (
+                        ",".join(
+                            '"%s"' % self.__escape(val) for val in c[next_arg_pos:]
+                        )
+                    ),
                 )
             else:
                 # header command fallback
@@ -331,6 +345,7 @@ class FiltersSet:
                     atype = "number"
                 elif isinstance(arg, list):
                     atype = "stringlist"
+                    arg = [self.__quote_if_necessary(item) for item in arg]
                 elif arg.startswith(":"):
                     atype = "tag"
                     self.__require_tag_extension(action, arg)
